@@ -96,6 +96,41 @@ def build_component(src_dir, name):
     return out, comp
 
 
+def behavioural(v, tier):
+    import hashlib
+    import random
+    import histories
+    import modelcheck
+    ths = theories.prepare()
+    theories.prepare_component_driver()
+    rnd = random.Random(vlib.seed())
+    work = vlib.workdir("c19-beh")
+    hs = []
+    for theory, (sig, stages) in sorted(ths.items()):
+        api = histories.api_of(sig, modelcheck.module_path(theory))
+        for _ in range(60 if tier == "thorough" else 10):
+            hs.append({"id": len(hs) + 1, "theory": theory, "fam": -1,
+                       "steps": histories.random_history(sig, api, rnd, rnd.randint(5, 16), 2 if theory == "semilattice" else 3)})
+    hpath = os.path.join(work, "histories.ndjson")
+    vlib.write_ndjson(hpath, hs)
+    rows = []
+    for label, binary in (("module-build", "model-driver"), ("component-build", "comp-driver")):
+        tpath = os.path.join(work, f"trace_{label}.ndjson")
+        r = vlib.run([os.path.join(vlib.BIN, binary), hpath, tpath], timeout=1800)
+        if r.returncode != 0:
+            raise vlib.ToolError(f"{binary} failed: {r.stderr[-800:]}")
+        out = {}
+        for i, line in enumerate(open(tpath)):
+            out[f"line{i+1}"] = hashlib.sha1(re.sub(r'"ms":\d+,', "", line).encode()).hexdigest()[:16]
+        rows.append({"group": "corpus-histories", "label": label, "out": out})
+    trace = os.path.join(work, "trace.ndjson")
+    vlib.write_ndjson(trace, rows)
+    res = vlib.validate_trace("DetTrace", trace, name="c19-beh-mon", cfg="DetTrace_C19")
+    for viol in res["viol"]:
+        v.violation("module build and component build behave differently: " + viol["what"], {"histories": hpath})
+    return {"histories": len(hs), "transcript_lines": len(rows[0]["out"]), "differing_runs": len(res["viol"])}
+
+
 def run(tier, replay):
     v = vlib.Verdict(PROP, tier, "translation_validation")
     vlib.cargo_build(["eqlogc"])
@@ -130,13 +165,18 @@ def run(tier, replay):
         rec = records[int(m.group(1)) - 1]
         disagreements = 1
         v.violation(f"{','.join(r['violated'])} fails for program {rec['program']}", {"program": rec["program"], "record": rec})
+    # ---- behavioural part: the same histories against the module build and the component build
+    beh = behavioural(v, tier)
     v.coverage = {
-        "programs": len(records), "disagreements_checked": disagreements,
+        "behavioural": beh,
+        "programs": len(records), "disagreements_checked": disagreements + beh.get("differing_runs", 0),
         "samples": [{k: (val if k != "structs" else val[:1]) for k, val in records[0].items()}],
         "states": r["distinct"], "rule_modules": sum(len(x["ruletext"]) for x in records),
         "env_struct_declarations": sum(len(s["decls"]) for x in records for s in x["structs"]),
         "explanation": "structural validation of module-mode vs component-mode output for the corpus and the repository's "
-                       "test theories (component sources obtained with a stand-in rustc); predicates of Link.tla evaluated by TLC per program",
+                       "test theories (component sources obtained with a stand-in rustc); predicates of Link.tla evaluated by TLC per program; "
+                       "behavioural: seeded random histories of every corpus theory executed by the driver built from the module-mode "
+                       "text and by the one built with process_root() (real rustc, one library per rule); transcripts compared by DetTrace",
     }
     v.assumptions = ["tools/extract.py / checks/c19.py split the emitted text faithfully", "TLC"]
     return v.finish()
